@@ -179,6 +179,16 @@ def evaluate(ctx, cases):
                         exp_model[e] = implutil.quiet(detect_bursts_cycles if c['method'] == 'cycles' or c['kw'] == 'none' else detect_bursts_amp, t.copy(), **th)
                 judge_ok = _cmp_tables(p['got'], exp, info, 'judge')
                 corr_ok = _cmp_tables(p['got'], exp_model, info, 'model')
+                if judge_ok and c['kw'] in ('list', 'alias') and c['method'] == 'amp':
+                    lr = []
+                    for e, t in enumerate(p['got']):
+                        th = _opts(c, e if c['kw'] == 'list' else 0)['threshold_kwargs']
+                        lr.append('amp.spec %s %s %s' % (proto.enc_list([float(v) for v in t['burst_fraction'].values]), proto.enc_rat(th['burst_fraction_threshold']), proto.enc_rat(th['min_n_cycles'])))
+                    for e, (a, t) in enumerate(zip(proto.run_driver(lr), p['got'])):
+                        want = a[1] if isinstance(a, list) and a and a[0] == 'ok' else a
+                        have = proto.enc_bits(list(t['is_burst'].values.astype(bool)))
+                        if want != have:
+                            judge_ok = False; info['judge'] = 'epoch %d: labels %s, the amplitude label rule applied to the epoch alone gives %s' % (e, have, want); break
                 if judge_ok and c['kw'] in ('list', 'alias') and c['method'] == 'cycles':
                     # the labels of every re-labelled epoch against the Lean specification of the label rule (cyclesSpec), not against the
                     # implementation's own detect_bursts_cycles: each epoch is labelled ON ITS OWN (first and last cycle never burst)
